@@ -142,8 +142,19 @@ def lib(with_numpy=False):
             for n in names:
                 if hasattr(mod, n):
                     ns.classes[n] = getattr(mod, n)
+    ns.default_capacity = {}
+    for n, c in ns.classes.items():
+        if hasattr(c, "get_buffer_capacity"):
+            try:
+                ns.default_capacity[n] = c.get_buffer_capacity()
+            except Exception:  # noqa: BLE001
+                pass
     _lib = ns
     return ns
+
+
+def default_capacity(clsname):
+    return lib().default_capacity.get(clsname)
 
 
 def cls(name):
